@@ -99,8 +99,8 @@ theorem step_word_agrees (e : WordEntry) (he : e ∈ wordTable) (s : IState) (hc
     (hwf : WF s) : step s = .pure (e.rule s) :=
   Proofs.EvmStep.step_word_agrees e he s hcode hwf
 
-/-- the 19 environment reads (ADDRESS, ORIGIN, CALLER, CALLVALUE, CALLDATASIZE, CODESIZE, GASPRICE, RETURNDATASIZE,
-COINBASE, TIMESTAMP, NUMBER, DIFFICULTY / PREVRANDAO, GASLIMIT, CHAINID, BASEFEE, BLOBBASEFEE, PC, MSIZE, GAS) -/
+/-- the 18 environment reads (ADDRESS, ORIGIN, CALLER, CALLVALUE, CALLDATASIZE, CODESIZE, GASPRICE, RETURNDATASIZE,
+COINBASE, TIMESTAMP, NUMBER, GASLIMIT, CHAINID, BASEFEE, BLOBBASEFEE, PC, MSIZE, GAS) -/
 theorem step_env_agrees (e : EnvEntry) (he : e ∈ envTable) (s : IState) (hcode : s.code[s.pc]? = some e.op)
     (hwf : WF s) : step s = .pure (e.rule s) :=
   Proofs.EvmStep.step_env_agrees e he s hcode hwf
@@ -113,6 +113,10 @@ example : ∃ s : IState, WF s ∧ s.code[s.pc]? = some 0x01 ∧ (⟨0x01, 3, 0,
 /-- EXP with its exponent-length gas (10 resp. 50 per byte from Spurious Dragon) and the `Spec.Arith` power -/
 theorem step_exp_agrees (s : IState) (hcode : s.code[s.pc]? = some 0x0a) (hwf : WF s) :
     step s = .pure (expRule s) := Proofs.EvmStep.step_exp s hcode hwf
+
+/-- DIFFICULTY / PREVRANDAO (EIP-4399) -/
+theorem step_difficulty_agrees (s : IState) (hcode : s.code[s.pc]? = some 0x44) (hwf : WF s) :
+    step s = .pure (difficultyRule s) := Proofs.EvmStep.step_difficulty s hcode hwf.gas
 
 theorem step_pop_agrees (s : IState) (hcode : s.code[s.pc]? = some 0x50) (hwf : WF s) :
     step s = .pure (popRule s) := Proofs.EvmStep.step_pop s hcode hwf.gas
